@@ -321,6 +321,28 @@ static size_t build_multipart(const char *rstr, int bfd, size_t total, const cha
     return len;
 }
 
+/* A writer whose output device refuses every byte (/dev/full): zck_close must fail, and nothing this context does on its way out may
+ * touch what belongs to other threads (descriptor numbers are process-wide: a descriptor closed twice is somebody else's the second time) */
+static void scenario_failing_writer(struct T *t, int round) {
+    int fd = open("/dev/full", O_WRONLY);
+    if(fd < 0) { L(t, "r%d failing-writer: no /dev/full", round); return; }
+    zckCtx *z = zck_create();
+    int iw = -9, w = -9, cl = -9;
+    char *d = gen_content(t, 20000, 50 + round);
+    OP(t, "failing_write", {
+        iw = zck_init_write(z, fd);
+        if(iw) { w = (int)zck_write(z, d, 20000); cl = zck_close(z); }
+    });
+    /* an application reports the failure before it cleans up */
+    struct timespec ts = {0, 300000 + (long)(nxt(t) % 700000)};
+    nanosleep(&ts, NULL);
+    sched_yield();
+    OP(t, "failing_free", zck_free(&z));
+    close(fd);
+    free(d);
+    L(t, "r%d failing-writer init=%d write=%d close=%d", round, iw, w, cl);
+}
+
 static void scenario_round2(struct T *t, int round) {
     char p1[600], p2[600], pt[600], ph[600];
     snprintf(p1, sizeof(p1), "%s/a.zck", t->dir);
@@ -519,7 +541,9 @@ static void *thread_main(void *arg) {
     tl_msgs = 0;
     for(int r = 0; r < rounds; r++) {
         scenario_round(t, r);
+        if((t->k + r) % 2 == 0) scenario_failing_writer(t, r);
         scenario_round2(t, r);
+        if((t->k + r) % 2 == 1) scenario_failing_writer(t, r);
         if(logmode) L(t, "r%d log-messages-delivered-in-this-thread %ld", r, tl_msgs);
     }
     return NULL;
